@@ -13,6 +13,7 @@ k['findings'] = [f for f in k['findings'] if not (f['property'] == prop and f['s
 e = {"property": prop, "signature": sig, "status": status, "what": what}
 if commit:
     e["commit"] = commit
+e["record"] = ("fixed: property=%s %s %s" % (prop, commit, what)) if status == "fixed" else ("KNOWN-FINDING: property=%s %s" % (prop, what))
 k['findings'].append(e)
 json.dump(k, open('/verif/known_findings.json', 'w'), indent=1)
 print("recorded", prop, sig, status, commit)
